@@ -27,6 +27,11 @@ fn fresh_quote(key_no: u8, content: XorName, ts: SystemTime) -> PaymentQuote {
     q
 }
 
+/// an EncodedPeerId whose bytes are not a valid PeerId (can be crafted on the wire only)
+pub fn undecodable_peer_id() -> EncodedPeerId {
+    EncodedPeerId(vec![0xff, 0x00, 0x01])
+}
+
 fn setup() {
     symrt::register_path_reset(shim::reset);
     shim::reset();
@@ -113,6 +118,13 @@ fn c13_proof() {
             }
         }
         quotes.push((EncodedPeerId::from(peer(claimed_no)), q));
+    }
+    if choice(2) == 1 {
+        // an extra entry whose claimed identity does not decode, carrying an unsigned quote in our name
+        let mut forged = fresh_quote(1, XorName([1; 32]), t);
+        forged.signature = vec![];
+        quotes.push((undecodable_peer_id(), forged));
+        all_ok = false;
     }
     let proof = ProofOfPayment { peer_quotes: quotes };
     let got = proof.verify_for(me);
